@@ -62,6 +62,8 @@ def main(tier):
             cat = db.GetDefaultCategory(us[0])
             pairs = [(a, b) for a in us for b in us]
             lim = 300 if thorough else 10
+            if any(db.Convert(qt, x, us[0], 0.0) != 0.0 for x in us):
+                lim = 400            # quantity types with offset units: every ordered pair, in sequence (history-dependent offsets)
             if len(pairs) > lim:
                 pairs = rng.sample(pairs, lim)
             for u, v in pairs:
@@ -103,6 +105,8 @@ def main(tier):
         q1, q2 = ObtainQuantity("m", "length"), ObtainQuantity(OrderedDict([("length", ["m", 1]), ("time", ["s", -1])]))
         s1 = Scalar(1.0, "m")
         objs = [q1, q2, ObtainQuantity(OrderedDict()), ObtainQuantity("<unknown>", "Unknown", "cap"),
+                ObtainQuantity("m", "length", "label"), ObtainQuantity("m", "length", "other label"), Scalar(ObtainQuantity("m", "length", "label"), 1.0),
+                ObtainQuantity(OrderedDict([("length", ["m", 1]), ("time", ["s", -1])]), None, "label"),
                 s1, Scalar(100.0, "cm"), Scalar(1.0, "m"), s1 * s1, Scalar.CreateEmptyScalar(1.0), Scalar(q2, 1.0),
                 Array([1.0, 2.0], "m"), Array((1.0, 2.0), "m"), Array(numpy.array([1.0, 2.0]), "m"), Array(numpy.array([1.0, 2.0, 3.0]), "m"),
                 Array([1.0, 2.0, 3.0], "m"), Array([1.0], "m"), Array([], "m"), Array(numpy.array([1.0]), "m"), Array([1.0, 2.0], "cm"),
